@@ -303,6 +303,7 @@ func (v *vdrRun) expectState(f *core.VerifVdrFork, removed []string, rep *vdrRep
 }
 
 func (v *vdrRun) modelChecks() {
+	v.relocReplay()
 	v.modelChecksOn(v.preFinal, v.postKill, "final VDRKill", true)
 }
 
@@ -450,9 +451,10 @@ func (v *vdrRun) modelChecksOn(pre, pk *vdrSnapshot, label string, lifeReplay bo
 		}
 		// ---- (B) the whole life of the fork replayed from the initial bookkeeping
 		init, ok := v.initView[f.Node]
-		if !ok || (v.r.Inc > 0 && !v.retried) || len(v.spec.CrashAt) > 0 {
+		if !ok || v.reloc != nil {
 			continue
 		}
+		crashed := v.r.Inc > 0 && !v.retried
 		var args []string
 		for a := range init.FileArgs {
 			args = append(args, a)
@@ -466,8 +468,13 @@ func (v *vdrRun) modelChecksOn(pre, pk *vdrSnapshot, label string, lifeReplay bo
 			if i := strings.Index(fn, ".fork"); i > 0 {
 				fn = fn[:i]
 			}
-			evs = append(evs, "f"+hx(fn), "k", "r"+hx(fn))
+			evs = append(evs, "f"+hx(fn), "k", "R", "r"+hx(fn))
 			v.hist("life-replay-with-failed-consumer")
+		}
+		if crashed || (v.spec.FailChunk && v.retried) {
+			// mrp died (or was stopped after a failure) and was restarted: the bookkeeping is rebuilt
+			evs = append(evs, "R")
+			v.hist("life-replay-with-restart")
 		}
 		for _, d := range done {
 			evs = append(evs, "d"+hx(d))
